@@ -471,7 +471,15 @@ def c09_authenticate (cfg : Cfg) (req : AuthReq) (pre : List Passkey) (o : CObs 
 /-- clauses of C04 for a client ceremony: `required` is the request for verification the statement speaks
 of (how the client maps `preferred` is left to the model comparison); presence is always required.
 `ad`: authenticator data of a successful ceremony -/
-def c04_client (uvReq : UvReq) (uv : UvCfg) (pre post : List PkSnap) (trace : List EvObs) (ad : Option Bytes) (failedOrPanic : Bool) : Option String :=
+def c04_client (uvReq : UvReq) (uv : UvCfg) (pre post : List PkSnap) (trace : List EvObs) (ad : Option Bytes) (failedOrPanic : Bool)
+    (errName : Option String := none) : Option String :=
+  -- while consent is missing the outcome is the same whether or not a matching credential exists: an answer that only
+  -- a matching (or a missing) credential can cause - credential-excluded, credential-not-found - discloses it
+  let consentMissing := match uv.answer with
+    | .ok (p, v) => !p || (uvReq == .required && !v)
+    | .error _ => true
+  if consentMissing && (errName == some "AuthenticatorError(25)" || errName == some "CredentialNotFound") then
+    some "store-content-disclosed-while-consent-is-missing" else
   let effects := trace.any (fun e => match e with | .save .. => true | .update .. => true | _ => false)
   let asked := trace.any (fun e => match e with | .uv .. => true | _ => false)
   if failedOrPanic && uvReq == .required && uv.verification != some true && (decide (pre ≠ post) || effects) then
@@ -490,6 +498,20 @@ def c04_client (uvReq : UvReq) (uv : UvCfg) (pre post : List PkSnap) (trace : Li
       if (flags &&& 0x01 != 0) != p then some "up-flag-is-not-what-the-user-validation-step-reported" else
       if (flags &&& 0x04 != 0) != v then some "uv-flag-is-not-what-the-user-validation-step-reported" else none
 
+/-! ### C07 — a ceremony that reports an error has not changed the store (seen from the WebAuthn caller) -/
+
+def c07_client_reg (pre post : List PkSnap) (failed : Bool) : Option String :=
+  if failed && decide (pre ≠ post) then some "registration-reported-as-failed-but-the-store-changed" else none
+
+/-- after a failed authentication every credential is as it was, except that one counter may be one higher -/
+def c07_client_auth (pre post : List PkSnap) (failed : Bool) : Option String :=
+  if !failed then none else
+  let same (p q : PkSnap) : Bool := p.credId == q.credId && p.rpId == q.rpId && p.userHandle == q.userHandle && p.x == q.x && decide (p.hmac = q.hmac)
+  let stepOk (p q : PkSnap) : Bool := same p q && (p.counter == q.counter || (match p.counter, q.counter with | some a, some b => b == a + 1 | _, _ => false))
+  if pre.length == post.length && (pre.zip post).all (fun pq => stepOk pq.1 pq.2)
+      && ((pre.zip post).filter (fun pq => pq.1.counter != pq.2.counter)).length ≤ 1 then none
+  else some "authentication-reported-as-failed-but-the-store-changed-beyond-one-counter-step"
+
 def verdictReg (prop : String) (cfg : Cfg) (kind : StoreKind) (uv : UvCfg) (origin : RpId.Origin) (originStr : String)
     (req : RegisterReq) (mode : ClientDataMode) (draws : Option Draws) (pre : List PkSnap) (impl : String) : String :=
   match parseRegObs impl with
@@ -498,9 +520,11 @@ def verdictReg (prop : String) (cfg : Cfg) (kind : StoreKind) (uv : UvCfg) (orig
     if prop = "C11" then (match c11_register kind uv req o with | none => "ok" | some f => "fail:" ++ f)
     else if prop = "C02" then (match c02_register cfg kind origin originStr req mode draws pre o with | none => "ok" | some f => "fail:" ++ f)
     else if prop = "C09" then (match c09_register cfg req pre o with | none => "ok" | some f => "fail:" ++ f)
+    else if prop = "C07" then (match c07_client_reg pre o.store (match o.res with | .ok _ => false | _ => true) with | none => "ok" | some f => "fail:" ++ f)
     else if prop = "C04" then
       (match c04_client ((req.selection.map (·.userVerification)).getD .preferred) uv pre o.store o.trace
-          (match o.res with | .ok r => some r.authData | _ => none) (match o.res with | .ok _ => false | _ => true) with
+          (match o.res with | .ok r => some r.authData | _ => none) (match o.res with | .ok _ => false | _ => true)
+          (match o.res with | .err n => some n | _ => none) with
         | none => "ok" | some f => "fail:" ++ f)
     else "na"
 
@@ -523,9 +547,11 @@ def verdictAuth (prop : String) (cfg : Cfg) (_kind : StoreKind) (uv : UvCfg) (or
     else if prop = "C03" then (match c03_authenticate _kind uv origin originStr req mode preItems o with | none => "ok" | some f => "fail:" ++ f)
     else if prop = "C09" then (match c09_authenticate cfg req preItems o with | none => "ok" | some f => "fail:" ++ f)
     else if prop = "C13" then (match c13_authenticate o with | none => "ok" | some f => "fail:" ++ f)
+    else if prop = "C07" then (match c07_client_auth pre o.store (match o.res with | .ok _ => false | _ => true) with | none => "ok" | some f => "fail:" ++ f)
     else if prop = "C04" then
       (match c04_client req.userVerification uv pre o.store o.trace
-          (match o.res with | .ok r => some r.authData | _ => none) (match o.res with | .ok _ => false | _ => true) with
+          (match o.res with | .ok r => some r.authData | _ => none) (match o.res with | .ok _ => false | _ => true)
+          (match o.res with | .err n => some n | _ => none) with
         | none => "ok" | some f => "fail:" ++ f)
     else "na"
 
